@@ -429,14 +429,14 @@ typedef struct {
 
 enum {
 	B_HSET_TYP, B_HSET_ALG, B_HSET_KID, B_HDEL_TYP, B_HDEL_ALL,
-	B_CSET_IAT, B_CSET_NBF, B_CSET_EXP, B_CSET_SUB, B_CDEL_SUB, B_CDEL_ALL,
+	B_CSET_IAT, B_CSET_NBF, B_CSET_EXP, B_CSET_SUB, B_CDEL_SUB, B_CDEL_ALL, B_CSET_EXP_STR, B_CSET_IAT_BOOL,
 	B_IAT_OFF, B_IAT_ON, B_EXP_NEG, B_EXP_0, B_EXP_60, B_NBF_NEG, B_NBF_0, B_NBF_60, B_OFF_IAT_BAD,
 	B_KEY_NONE, B_KEY_OCT, B_KEY_ES, B_KEY_ES_PUB,
 	B_CB_NULL, B_CB_ADD, B_CB_SETKEY, B_CB_DELCLAIMS, B_CB_DROPKEY,
 	B_GEN_T0, B_GEN_T1, NBOPS
 };
 static const char *bop_name[NBOPS] = { "header_set(typ,X)", "header_set(alg,none)", "header_set(kid,k)", "header_del(typ)", "header_del(all)", "claim_set(iat,7)", "claim_set(nbf,7)",
-	"claim_set(exp,7)", "claim_set(sub,s)", "claim_del(sub)", "claim_del(all)", "enable_iat(0)", "enable_iat(1)", "time_offset(EXP,-5)", "time_offset(EXP,0)",
+	"claim_set(exp,7)", "claim_set(sub,s)", "claim_del(sub)", "claim_del(all)", "claim_set(exp,\"never\")", "claim_set(iat,true)", "enable_iat(0)", "enable_iat(1)", "time_offset(EXP,-5)", "time_offset(EXP,0)",
 	"time_offset(EXP,60)", "time_offset(NBF,-5)", "time_offset(NBF,0)", "time_offset(NBF,60)", "time_offset(IAT,1)!", "setkey(none,NULL)", "setkey(none,oct+HS256)",
 	"setkey(ES256,P-256 private)", "setkey(ES256,P-256 public)!", "setcb(NULL)", "setcb(adds claim+header)", "setcb(selects HS256 key)", "setcb(deletes all claims)", "setcb(withdraws key and alg)",
 	"generate@T0", "generate@T0+1000" };
@@ -481,6 +481,8 @@ static void bmodel_step(bst_t *s, int op)
 	case B_CSET_SUB: mset(s->c, "sub", json_string("s"), 0); break;
 	case B_CDEL_SUB: json_object_del(s->c, "sub"); break;
 	case B_CDEL_ALL: json_object_clear(s->c); break;
+	case B_CSET_EXP_STR: mset(s->c, "exp", json_string("never"), 0); break;
+	case B_CSET_IAT_BOOL: mset(s->c, "iat", json_true(), 0); break;
 	case B_IAT_OFF: s->iat = 0; break;
 	case B_IAT_ON: s->iat = 1; break;
 	case B_EXP_NEG: case B_EXP_0: s->exp = 0; break;
@@ -546,6 +548,8 @@ static int bimpl_step(jwt_builder_t *b, int op)
 	case B_CSET_SUB: jwt_set_SET_STR(&v, "sub", "s"); return jwt_builder_claim_set(b, &v);
 	case B_CDEL_SUB: return jwt_builder_claim_del(b, "sub");
 	case B_CDEL_ALL: return jwt_builder_claim_del(b, NULL);
+	case B_CSET_EXP_STR: jwt_set_SET_STR(&v, "exp", "never"); return jwt_builder_claim_set(b, &v);
+	case B_CSET_IAT_BOOL: jwt_set_SET_BOOL(&v, "iat", 1); return jwt_builder_claim_set(b, &v);
 	case B_IAT_OFF: return jwt_builder_enable_iat(b, 0);
 	case B_IAT_ON: return jwt_builder_enable_iat(b, 1);
 	case B_EXP_NEG: return jwt_builder_time_offset(b, JWT_CLAIM_EXP, -5);
